@@ -16,6 +16,7 @@ import (
 	"strings"
 
 	"github.com/TheManticoreProject/Manticore/network/smb/smb_v10/message/commands"
+	"github.com/TheManticoreProject/Manticore/network/smb/smb_v10/message/commands/andx"
 	"github.com/TheManticoreProject/Manticore/network/smb/smb_v10/message/commands/codes"
 	"github.com/TheManticoreProject/Manticore/network/smb/smb_v10/message/commands/command_interface"
 	"github.com/TheManticoreProject/Manticore/network/smb/smb_v10/message/header"
@@ -301,6 +302,30 @@ func showVal(v reflect.Value) string {
 
 func cmdStruct(c command_interface.CommandInterface) reflect.Value { return reflect.ValueOf(c).Elem() }
 
+// the AndX block of a command (Command.AndX, nil until Marshal or Unmarshal of an AndX command creates it), under
+// the pseudo-field name the Lean model uses (SmbIR.andxField): `AndX=l:command,reserved,offset`
+const andxFieldName = "AndX"
+
+func andxToken(c command_interface.CommandInterface) string {
+	a := c.GetAndX()
+	if a == nil {
+		return ""
+	}
+	return fmt.Sprintf("l:%d,%d,%d", uint8(a.AndXCommand), a.AndXReserved, a.AndXOffset)
+}
+
+func setAndX(c command_interface.CommandInterface, tok string) {
+	kv := strings.SplitN(tok, ":", 2)
+	if len(kv) != 2 || kv[0] != "l" {
+		panic("harness: bad AndX token " + tok)
+	}
+	ns := parseNums(kv[1])
+	if len(ns) != 3 {
+		panic("harness: bad AndX token " + tok)
+	}
+	c.SetAndX(&andx.AndX{AndXCommand: codes.CommandCode(ns[0]), AndXReserved: uint8(ns[1]), AndXOffset: uint16(ns[2])})
+}
+
 func dumpEnv(c command_interface.CommandInterface, g *gCmd) string {
 	sv := cmdStruct(c)
 	var parts []string
@@ -310,6 +335,9 @@ func dumpEnv(c command_interface.CommandInterface, g *gCmd) string {
 			panic("harness: field " + f.Name + " of " + g.Name + " not found by reflection")
 		}
 		parts = append(parts, f.Name+"="+showVal(fv))
+	}
+	if t := andxToken(c); t != "" {
+		parts = append(parts, andxFieldName+"="+t)
 	}
 	if len(parts) == 0 {
 		return "."
@@ -410,6 +438,10 @@ func setEnv(c command_interface.CommandInterface, env string) {
 	sv := cmdStruct(c)
 	for _, p := range strings.Split(env, ";") {
 		kv := strings.SplitN(p, "=", 2)
+		if kv[0] == andxFieldName {
+			setAndX(c, kv[1])
+			continue
+		}
 		fv := sv.FieldByName(kv[0])
 		if !fv.IsValid() {
 			panic("harness: no field " + kv[0])
@@ -445,13 +477,24 @@ func smbDec(a []string) string {
 	return "ok " + dumpEnv(c, g)
 }
 
+// the declared fields, then (AndX commands) the AndX block
 func fieldTokens(c command_interface.CommandInterface, g *gCmd) []string {
 	sv := cmdStruct(c)
 	out := make([]string, len(g.Fields))
 	for i, f := range g.Fields {
 		out[i] = showVal(sv.FieldByName(f.Name))
 	}
+	if g.IsAndX {
+		out = append(out, andxToken(c))
+	}
 	return out
+}
+
+func fieldTokenName(g *gCmd, i int) string {
+	if i < len(g.Fields) {
+		return g.Fields[i].Name
+	}
+	return andxFieldName
 }
 
 // marshal, unmarshal into a fresh command, compare fields, marshal again, compare bytes
@@ -478,7 +521,7 @@ func smbRt(a []string) string {
 	fd := "eq"
 	for i := range after {
 		if after[i] != dec[i] {
-			fd = "diff:" + g.Fields[i].Name
+			fd = "diff:" + fieldTokenName(g, i)
 			break
 		}
 	}
